@@ -25,7 +25,8 @@ package pmm
 //   - the early-reservation area just below it (64 pages, plus the temporary page itself for code that
 //     strays there) is served by a host WINDOW: host address = kernel address - tempMappingAddr + winTop.  Each window page is an mmap alias of the
 //     frame the ACTIVE address space maps the kernel page to (PROT_NONE when unmapped, read-only
-//     when not writable), refreshed on TLB flush and CR3 load exactly like a TLB.  pmm's
+//     when not writable), refreshed on TLB flush, on CR3 load and at the MapTemporary / Unmap seams (a TLB
+//     may drop entries at any time).  pmm's
 //     reserveRegionFn / mapFn therefore stay the real vmm functions, composed with that address
 //     translation only (the allocator then works on its tables through the window, i.e.
 //     through the address space that is active at the time: if vmm.Init does not carry the
@@ -322,6 +323,7 @@ func (m *xbMachine) install() func() {
 		ReadCR2:         func() uint64 { return m.cr2 },
 		HandleInterrupt: func(n gate.InterruptNumber, _ uint8, h func(*gate.Registers)) { m.handlers[n] = h },
 		MapTemporary: func(f mm.Frame) (mm.Page, *kernel.Error) {
+			m.syncAll() // a TLB may drop entries at any time: the aliases follow the page tables at every seam
 			p, err := vmm.MapTemporary(f)
 			if err != nil {
 				return 0, err
@@ -334,6 +336,7 @@ func (m *xbMachine) install() func() {
 			return m.tmpAlias, nil
 		},
 		Unmap: func(p mm.Page) *kernel.Error {
+			m.syncAll()
 			if p == m.tmpAlias {
 				p = mm.PageFromAddress(m.tmpAddr)
 			}
@@ -671,6 +674,52 @@ func (d *xbDriver) freeFrame(f mm.Frame) string {
 	return res
 }
 
+// drain: allocate until the allocator reports out of memory (one event with every frame handed out),
+// then one more single allocation (out-of-memory must be stable)
+func (d *xbDriver) drain() string {
+	fs := []int{}
+	e := xbEv{"k": "drain"}
+	res := xbCall(func() string {
+		for i := 0; i < 3*xbNFrames; i++ {
+			f, err := mm.AllocFrame()
+			if err != nil {
+				return xbErr(err)
+			}
+			fs = append(fs, int(f))
+			d.held = append(d.held, f)
+		}
+		return "endless"
+	})
+	d.free = nil
+	e["res"], e["fs"] = res, fs
+	d.m.counters(e)
+	d.emit(e)
+	if res == "oom" {
+		_, res = d.alloc()
+	}
+	return res
+}
+
+// freeAll: give back every frame the driver holds, in random order (one event)
+func (d *xbDriver) freeAll() string {
+	fs := []int{}
+	e := xbEv{"k": "freeall"}
+	res := xbCall(func() string {
+		for len(d.held) > 0 {
+			f := d.takeHeld(d.m.rng.Intn(len(d.held)))
+			fs = append(fs, int(f))
+			if err := bitmapAllocator.FreeFrame(f); err != nil {
+				return err.Message
+			}
+		}
+		return "ok"
+	})
+	e["res"], e["fs"] = res, fs
+	d.m.counters(e)
+	d.emit(e)
+	return res
+}
+
 func (d *xbDriver) takeHeld(j int) mm.Frame {
 	f := d.held[j]
 	d.held = append(d.held[:j], d.held[j+1:]...)
@@ -769,20 +818,9 @@ func (d *xbDriver) runScript(script [][]int) {
 			}
 			res = d.freeFrame(d.free[a(1)%len(d.free)])
 		case 3:
-			for i := 0; i < 3*xbNFrames; i++ {
-				if _, res = d.alloc(); res != "ok" {
-					break
-				}
-			}
-			if res == "oom" {
-				_, res = d.alloc()
-			}
+			res = d.drain()
 		case 4:
-			for len(d.held) > 0 {
-				if res = d.freeFrame(d.takeHeld(m.rng.Intn(len(d.held)))); res != "ok" {
-					break
-				}
-			}
+			res = d.freeAll()
 		case 5:
 			f := mm.Frame(m.base>>12) + mm.Frame(a(1))
 			for j, h := range d.held {
@@ -842,7 +880,7 @@ func (d *xbDriver) runScript(script [][]int) {
 			d.free = append(d.free, f)
 			res = d.freeFrame(f)
 		}
-		if res == "panic" || (len(res) > 5 && res[:5] == "crash") {
+		if res == "panic" || res == "endless" || (len(res) > 5 && res[:5] == "crash") {
 			break // a panic leaves the allocator's lock / the kernel in an undefined state
 		}
 	}
